@@ -91,7 +91,7 @@ fn generate_g(seed: u64, _quick: bool) -> Value {
             _ => 3000,
         };
         let reg_text = format!(
-            "(define-library (iso reg) (import (scheme base)) (export iso-reg-value iso-reg-next! iso-reg-bumped) (begin (define n {m}) (define (iso-reg-value) {m}) (define (iso-reg-next!) (set! n (+ n 1)) n) (define-syntax iso-bump (syntax-rules () ((iso-bump x) (+ x {m})))) (define (iso-reg-bumped x) (iso-bump x))))",
+            "(define-library (iso reg) (import (scheme base) (sim nest)) (export iso-reg-value iso-reg-next! iso-reg-bumped) (begin (define n (+ {m} (sim-nested 0))) (define (iso-reg-value) {m}) (define (iso-reg-next!) (set! n (+ n 1)) n) (define-syntax iso-bump (syntax-rules () ((iso-bump x) (+ x {m})))) (define (iso-reg-bumped x) (iso-bump x))))",
             m = marker
         );
         let file_text = format!(
@@ -184,6 +184,11 @@ fn generate_g(seed: u64, _quick: bool) -> Value {
                     "(define nested-result (sim-nested 0))",
                     "(if (= (sim-nested 0) 0) 'went 'skipped)",
                     "(vector-ref (vector 1 (sim-nested 0)) 1)",
+                    // one text, several forms: the rest of the text is still to come when the
+                    // other instance is entered
+                    "(sim-nested 0) (+ 1 2)",
+                    "(define before-nested 1) (sim-nested 0) (define after-nested 2) (+ before-nested after-nested)",
+                    "(car (cons (sim-nested 0) '())) 'after-nested",
                 ]);
                 forms.insert(at, json!({"t": t, "k": "nest"}));
             }
@@ -231,7 +236,11 @@ fn generate_g(seed: u64, _quick: bool) -> Value {
             sched.push(json!({"e": "mk", "i": whos[pick]}));
             made[pick] = true;
         }
-        let is_nest = progs[whos[pick]]["forms"][pos[pick]]["k"].as_str() == Some("nest");
+        // forms inside which the embedding program gets control: the nest forms, and the first
+        // import of the registered library (its body calls the host while it is being loaded)
+        let next_form = &progs[whos[pick]]["forms"][pos[pick]];
+        let is_nest = next_form["k"].as_str() == Some("nest")
+            || (next_form["t"].as_str() == Some("(import (iso reg))") && rng.chance(1, 2));
         let mut inner: Vec<Value> = vec![];
         if is_nest {
             for _ in 0..rng.range(1, 3) {
@@ -302,6 +311,20 @@ fn eval_form(inst: &mut Inst, form: &Value, index: usize) -> String {
     }
 }
 
+fn nested_procedure() -> ruschm::values::Value<f32> {
+    ruschm::values::Value::Procedure(ruschm::values::Procedure::new_builtin_impure(
+        "sim-nested".to_string(),
+        ruschm::param_fixed!["k"],
+        move |_args, _env| {
+            let hook = NEST_HOOK.with(|h| h.borrow().clone());
+            if let Some(f) = hook {
+                f();
+            }
+            Ok(ruschm::values::Value::Number(ruschm::values::Number::Integer(0)))
+        },
+    ))
+}
+
 fn make_instance(prog: &Value, dir: &PathBuf) -> Result<Inst, crate::hashseed::PanicRecord> {
     let mut sys = RealSys::new(!prog["bare_start"].as_bool().unwrap_or(false))?;
     sys.define_host();
@@ -312,20 +335,11 @@ fn make_instance(prog: &Value, dir: &PathBuf) -> Result<Inst, crate::hashseed::P
     }
     // a host procedure through which the embedding program does other things in the middle
     // of an evaluation: here, whatever the schedule placed inside the calling form
-    sys.it.env.define(
-        "sim-nested".to_string(),
-        ruschm::values::Value::Procedure(ruschm::values::Procedure::new_builtin_impure(
-            "sim-nested".to_string(),
-            ruschm::param_fixed!["k"],
-            move |_args, _env| {
-                let hook = NEST_HOOK.with(|h| h.borrow().clone());
-                if let Some(f) = hook {
-                    f();
-                }
-                Ok(ruschm::values::Value::Number(ruschm::values::Number::Integer(0)))
-            },
-        )),
-    );
+    sys.it.env.define("sim-nested".to_string(), nested_procedure());
+    sys.it.register_library_factory(LibraryFactory::Native(
+        library_name_of(&["sim", "nest"]),
+        Box::new(|| vec![("sim-nested".to_string(), nested_procedure())]),
+    ));
     sys.it.program_directory = Some(dir.clone());
     let reg = prog["reg_text"].as_str().unwrap_or("").to_string();
     let name = library_name_of(&["iso", "reg"]);
